@@ -107,7 +107,7 @@ func H_ParseTokens() {
 
 var contexts = []string{
 	"f:[# TO 5]", "f:[1 TO #]", "f:{# TO #}", "f:(#)", "(#)", "(#) AND v", "v AND (#)",
-	"NOT #", "f:#", "f:>#", "v #", "# v", "#~2", "#^2", "f:[# TO *]", "-#", "+#", "f:>=#", "v OR #", "v~#", "v^#", "f:(# OR #)", "f:(# OR # OR #)",
+	"NOT #", "f:#", "f:>#", "v #", "# v", "#~2", "#^2", "f:[# TO *]", "-#", "+#", "f:>=#", "v OR #", "v~#", "v^#", "f:(# OR #)", "f:(# OR # OR #)", "#:v", "(#):x*", "#:[1 TO 2]", "f:# AND v",
 }
 
 func init() { register("ParseCtx", H_ParseCtx) }
@@ -208,6 +208,7 @@ var ctxItems = [][]string{
 	{"f", ":", "(", "#", ")"}, {"(", "#", ")"}, {"(", "#", ")", "AND", "v"}, {"v", "AND", "(", "#", ")"},
 	{"NOT", "#"}, {"f", ":", "#"}, {"f", ":", ">", "#"}, {"v", "#"}, {"#", "v"}, {"#", "~", "2"}, {"#", "^", "2"},
 	{"f", ":", "[", "#", "TO", "*", "]"}, {"-", "#"}, {"+", "#"}, {"f", ":", ">", "=", "#"}, {"v", "OR", "#"}, {"v", "~", "#"}, {"v", "^", "#"}, {"f", ":", "(", "#", "OR", "#", ")"}, {"f", ":", "(", "#", "OR", "#", "OR", "#", ")"},
+	{"#", ":", "v"}, {"(", "#", ")", ":", "x*"}, {"#", ":", "[", "1", "TO", "2", "]"}, {"f", ":", "#", "AND", "v"},
 }
 
 func fixedTok(s string) dtok {
@@ -224,7 +225,7 @@ func fixedTok(s string) dtok {
 		return dtok{kind: tkTerm, tv: tvString, s: s, raw: s}
 	case "1", "2", "5":
 		return dtok{kind: tkTerm, tv: tvInt, i: int(s[0] - '0'), raw: s}
-	case "*":
+	case "*", "x*":
 		return dtok{kind: tkTerm, tv: tvWild, s: s, raw: s}
 	}
 	return dtok{kind: tkSym, sym: s[0], raw: s}
@@ -348,7 +349,7 @@ func H_LayoutTokens() {
 	k := rtParam("K")
 	df := rtParam("DF")
 	var toks []dtok
-	var spaced, compact, wide []byte
+	var spaced, compact, wide, glued []byte
 	wide = append(wide, '\n', ' ')
 	shapes := narrowShapes
 	if rtParam("SHAPES") == 1 {
@@ -369,9 +370,16 @@ func H_LayoutTokens() {
 			if !glue {
 				compact = append(compact, ' ')
 			}
+			// a prefix - (or +) may be glued to a following term that does not start with a digit
+			prevIsPrefix := prev.kind == tkSym && (prev.sym == '-' || prev.sym == '+')
+			startsWithDigit := t.kind == tkTerm && (t.tv == tvInt || t.tv == tvFloat)
+			if !(prevIsPrefix && t.kind == tkTerm && !startsWithDigit) {
+				glued = append(glued, ' ')
+			}
 		}
 		spaced = append(spaced, b...)
 		compact = append(compact, b...)
+		glued = append(glued, b...)
 		wide = append(wide, b...)
 		toks = append(toks, t)
 	}
@@ -381,6 +389,9 @@ func H_LayoutTokens() {
 	e1, err1 := parseOpt(string(spaced), df)
 	e2, err2 := parseOpt(string(compact), df)
 	e3, err3 := parseOpt(string(wide), df)
+	e4, err4 := parseOpt(string(glued), df)
+	rtObserve("glued", string(glued))
+	rtAssert("glued-same-outcome", (err1 == nil) == (err4 == nil))
 	rtAssert("compact-same-outcome", (err1 == nil) == (err2 == nil))
 	rtAssert("wide-same-outcome", (err1 == nil) == (err3 == nil))
 	if err1 != nil || e1 == nil {
@@ -394,8 +405,30 @@ func H_LayoutTokens() {
 	if err3 == nil && e3 != nil {
 		rtAssert("wide-same-tree", g1 == fmt.Sprintf("%#v", e3))
 	}
+	if err4 == nil && e4 != nil {
+		rtAssert("glued-same-tree", g1 == fmt.Sprintf("%#v", e4))
+	}
 	rtReach("end")
 }
 
 // reducedShapes: one representative per token kind (deeper sequences stay affordable).
 var reducedShapes = []shape{narrowShapes[0], narrowShapes[1], narrowShapes[2], narrowShapes[3], narrowShapes[4], narrowShapes[5], narrowShapes[7], narrowShapes[12], narrowShapes[16]}
+
+func init() { register("TreeTotality", H_TreeTotality) }
+
+// H_TreeTotality (C01): every consumer on trees whose quoted values carry bytes that matter to
+// formatting and quoting (% ' " \\ and friends) - user text must never be treated as a format.
+func H_TreeTotality() {
+	forms := []int{lfBare, lfEqStr, lfEqInt, lfQuotedNasty, lfRegexpNasty, lfList, lfRangeIncl, lfWild}
+	t := genTree(rtParam("D"), treeOps(), forms)
+	text := printNode(t, 0, &printOpts{})
+	rtObserve("text", text)
+	for df := 0; df <= 1; df++ {
+		e, err := parseOpt(text, df)
+		if err != nil || e == nil {
+			continue
+		}
+		totalityChecks(e, strings.Contains(text, "!"))
+	}
+	rtReach("end")
+}
